@@ -117,6 +117,10 @@ def catalogue(kind):
     F.append(("getProperties-empty-name", '<getProperties version="1.7" device="DEV0" name=""/>', []))
     F.append(("getProperties-element-name", '<getProperties version="1.7" device="DEV0" name="A"/>', []))
     F.append(("getProperties-odd-version", '<getProperties version="99.9" device="DEV0" name="TGT"/>', []))
+    for ver in ("1.7.1", "v1.7", "", "one"):
+        F.append(("getProperties-version-%s" % (ver or "empty"), '<getProperties version="%s" device="DEV0"/>' % ver, []))
+    # an empty device name names no device (it is not the same as no device attribute)
+    F.append(("empty-device-name", new_msg(k, [vc], device=""), []))
     F.append(("unknown-tag", "<fooBar device=\"DEV0\"><oneText name=\"A\">x</oneText></fooBar>", []))
     F.append(("newLightVector", '<newLightVector device="DEV0" name="TGT"><oneLight name="A">Alert</oneLight></newLightVector>', []))
     F.append(("write-to-bystander-wrong-kind", new_msg(k, [vc], name="OTHER"), [("OTHER", "A", vv)]))
